@@ -50,6 +50,15 @@ SCRIPTS['malt.pyct.transpiler.PyToPy.transform_function'] = ('bounded/c10_cache.
 
 SCRIPTS['malt.converters.control_flow.ControlFlowTransformer._create_state_functions'] = ('bounded/c03_opcontract.py', ['1', 'quick'])
 
+for _f in ('Analyzer.visit_node', '_NodeState.__init__', '_NodeState.__or__', '_NodeState.__add__', '_NodeState.__eq__', '_NodeState.__ne__'):
+  SCRIPTS['malt.pyct.static_analysis.reaching_fndefs.' + _f] = ('bounded/rt_fndefs.py', ['0', 'quick'])
+SCRIPTS['lemma.C07.fndefs_visit_node_refines_abstract'] = ('bounded/rt_fndefs.py', ['0', 'quick'])
+
+for _f in ('_TypeMap.__init__', '_TypeMap.__or__'):
+  SCRIPTS['malt.pyct.static_analysis.type_inference.' + _f] = ('bounded/c19_types.py', ['1', 'quick'])
+
+SCRIPTS['malt.pyct.transpiler._PythonFnFactory.instantiate'] = ('bounded/c09_interface.py', ['1', 'quick'])
+
 _cache = {}
 
 
